@@ -429,14 +429,20 @@ class Tensor:
     # ******* Basic ops *******
     # *************************
     
+    def _wrap_scalar(self, value) -> 'Tensor':
+        """ Python scalars take this tensor's floating dtype (a float64 tensor times 0.1 must not round 0.1 to float32) """
+        if isinstance(value, (int, float)) and self.is_floating_point:
+            return Tensor(np.asarray(value, dtype=self.dtype), device=self.device)
+        return Tensor(value, device=self.device)
+    
     def __add__(self, summand:'Tensor') -> 'Tensor':
-        summand = summand if isinstance(summand, Tensor) else Tensor(summand, device=self.device)
+        summand = summand if isinstance(summand, Tensor) else self._wrap_scalar(summand)
         from . import functional as F
         return  F.add(self, summand)
         
         
     def __mul__(self, factor:'Tensor') -> 'Tensor':
-        factor = factor if isinstance(factor, Tensor) else Tensor(factor, device=self.device)
+        factor = factor if isinstance(factor, Tensor) else self._wrap_scalar(factor)
         from . import functional as F
         return F.mul(self, factor)
     
